@@ -176,8 +176,20 @@ def run_consumer(which, rar):
     goals["no_int32_overflow"] = z3.And(idx + b <= INT32_MAX, idx + b >= -INT32_MAX - 1)
     # with RAR the reshuffle must be drawn with the store's probability vector (so that inactive rows stay last, C17)
     pfield = {"times": "p_times", "omega": "p_omega"}.get(field if isinstance(field, str) else "", None)
-    goals["reshuffle_uses_store_probabilities"] = z3.BoolVal(
-        (mine[0][4] is rec.fields[pfield]) if (rar and pfield) else (mine[0][4] is None))
+    parg = mine[0][4]
+    if rar and pfield:
+        # not "the same object": any vector that is zero exactly where the store's probabilities are zero keeps the
+        # inactive rows last (the assumed contract of choice only speaks about p == 0 / p > 0)
+        pst = rec.fields[pfield]
+        if parg is pst:
+            goals["reshuffle_uses_store_probabilities"] = z3.BoolVal(True)
+        elif isinstance(parg, SArr):
+            goals["reshuffle_uses_store_probabilities"] = z3.Implies(
+                z3.And(i_ >= 0, i_ < rows), z3.And((pyvc.zreal(parg.elem(i_)) == 0) == (pyvc.zreal(pst.elem(i_)) == 0), pyvc.zreal(parg.elem(i_)) >= 0))
+        else:
+            goals["reshuffle_uses_store_probabilities"] = z3.BoolVal(False)
+    else:
+        goals["reshuffle_uses_store_probabilities"] = z3.BoolVal(parg is None)
     axioms = list(getattr(ex, "extra_axioms", []))
     for pm in perms:
         v = z3.Int("anyrow2")
